@@ -28,6 +28,15 @@ EXTERNAL = {
     "Time": (["val", "val2", "format", "scale"], {"val2": "None", "format": "None", "scale": "None"}),
     "u.Quantity": (["value", "unit"], {"unit": "None"}),
     "pm.Deterministic": (["name", "var"], {}),
+    "np.diag": (["v", "k"], {"k": "0"}),
+    "np.concatenate": (["arrays", "axis"], {"axis": "0", "**": "None"}),
+    "enumerate": (["iterable", "start"], {"start": "0"}),
+    ".argsort": (["axis"], {"axis": "-1", "**": "None"}),
+    ".min": (["axis"], {"axis": "None", "**": "None"}),
+    ".max": (["axis"], {"axis": "None", "**": "None"}),
+    ".sum": (["axis"], {"axis": "None", "**": "None"}),
+    ".mean": (["axis"], {"axis": "None", "**": "None"}),
+    ".std": (["axis"], {"axis": "None", "**": "None"}),
     "pm.Normal": (["name", "mu", "sigma"], {"mu": "0", "sigma": "1", "**": "None"}),
     "UniformLog": (["name", "a", "b"], {"**": "None"}),
     "PolynomialRVTrend": (["coeffs", "t0"], {"t0": "None"}),
@@ -181,6 +190,112 @@ def _subst_consts(tree, env, clsc):
             return n
     T().visit(tree)
     ast.fix_missing_locations(tree)
+
+
+# ----------------------------------------------------------------------------------------------------------------- import spellings
+
+_ALIASES = None
+
+
+def base_aliases():
+    """{module path: {fully qualified name: the local spelling the tree the rules were written for uses}} (sa/inventory.json)"""
+    global _ALIASES
+    if _ALIASES is None:
+        import json, os
+        with open(os.path.join(os.path.dirname(__file__), "inventory.json")) as f:
+            _ALIASES = json.load(f).get("import_aliases", {})
+    return _ALIASES
+
+
+def canonical_imports(tree, relpath):
+    """`from astropy.utils.metadata import merge; merge(..)`  ->  `metadata.merge(..)` when the module used to reach that object as `metadata.merge`;
+    `import numpy; numpy.x` -> `np.x`.  Every name bound by an import of a library object is rewritten to the spelling of the frozen alias table
+    (longest qualified-name prefix); names whose spelling already agrees, package-internal imports and unknown libraries are left alone."""
+    base = dict(base_aliases().get(relpath, {}))
+    # common library aliases are the same in every module of the package
+    for m in base_aliases().values():
+        for fq, al in m.items():
+            if fq in ("numpy", "astropy.units", "pymc", "tables", "h5py", "os", "copy", "warnings") and fq not in base:
+                base[fq] = al
+    if not base:
+        return tree
+    local = {}   # local name -> fully qualified
+    for n in ast.walk(tree):
+        if isinstance(n, ast.Import):
+            for a in n.names:
+                if a.asname:
+                    local[a.asname] = a.name
+                else:
+                    local[a.name.split(".")[0]] = a.name.split(".")[0]
+        elif isinstance(n, ast.ImportFrom) and n.level == 0 and n.module and not n.module.startswith("thejoker"):
+            for a in n.names:
+                local[a.asname or a.name] = n.module + "." + a.name
+    ren = {}
+    for name, fq in local.items():
+        best = None
+        for bfq, al in base.items():
+            if (fq == bfq or fq.startswith(bfq + ".")) and (best is None or len(bfq) > len(best[0])):
+                best = (bfq, al)
+        if best is None:
+            continue
+        spelled = best[1] + fq[len(best[0]):]
+        if spelled != name:
+            ren[name] = spelled
+    if not ren:
+        return tree
+    shadow = set()
+    for n in ast.walk(tree):
+        if isinstance(n, ast.Name) and isinstance(n.ctx, (ast.Store, ast.Del)):
+            shadow.add(n.id)
+        elif isinstance(n, ast.arg):
+            shadow.add(n.arg)
+    ren = {k: v for k, v in ren.items() if k not in shadow}
+
+    class T(ast.NodeTransformer):
+        def visit_Name(self, n):
+            if isinstance(n.ctx, ast.Load) and n.id in ren:
+                return ast.copy_location(ast.parse(ren[n.id], mode="eval").body, n)
+            return n
+    T().visit(tree)
+    ast.fix_missing_locations(tree)
+    return tree
+
+
+# ----------------------------------------------------------------------------------------------------------------- column accessors
+
+def column_accessors(tree):
+    """Inside a class whose `__getitem__` returns `self.tbl[key]` for string keys that are column names and whose `par_names` is `self.tbl.colnames`
+    (JokerSamples), `self.tbl[<string literal>]` and `self[<string literal>]` are the same column (or the same KeyError): loads are written `self[..]`.
+    Applied only when both facts are found in the class, so a change of `__getitem__` switches the rewrite off."""
+    for c in ast.walk(tree):
+        if not isinstance(c, ast.ClassDef):
+            continue
+        meths = {m.name: m for m in c.body if isinstance(m, ast.FunctionDef)}
+        gi, pn = meths.get("__getitem__"), meths.get("par_names")
+        if gi is None or pn is None or len(gi.args.args) != 2:
+            continue
+        key = gi.args.args[1].arg
+        ok_gi = False
+        for st in gi.body:
+            if isinstance(st, ast.If) and len(st.body) == 1 and isinstance(st.body[0], ast.Return) and ast.unparse(st.body[0].value) == "self.tbl[%s]" % key \
+                    and ast.unparse(st.test) in ("isinstance(%s, str) and %s in self.par_names" % (key, key), "isinstance(%s, str) and %s in self.tbl.colnames" % (key, key)):
+                ok_gi = True
+        ok_pn = any(isinstance(st, ast.Return) and ast.unparse(st.value) == "self.tbl.colnames" for st in pn.body)
+        if not (ok_gi and ok_pn):
+            continue
+
+        class T(ast.NodeTransformer):
+            def visit_Subscript(self, n):
+                self.generic_visit(n)
+                if isinstance(n.ctx, ast.Load) and isinstance(n.slice, ast.Constant) and isinstance(n.slice.value, str) \
+                        and isinstance(n.value, ast.Attribute) and n.value.attr == "tbl" and isinstance(n.value.value, ast.Name) and n.value.value.id == "self":
+                    n.value = n.value.value
+                return n
+        for nm, m in meths.items():
+            if nm in ("__getitem__", "__setitem__", "__init__"):
+                continue
+            T().visit(m)
+    return tree
 
 
 # ----------------------------------------------------------------------------------------------------------------- call spelling
